@@ -41,6 +41,10 @@ pub mod hidden_state {
     pub struct S; unsafe impl Send for S {}
     pub fn clock() -> std::time::Instant { std::time::Instant::now() }
     pub fn env() -> Option<String> { std::env::var("X").ok() }
+    /// R18.6 controls: values derived from an address (ASLR / stack depth / thread dependent)
+    pub fn addr_cast(x: &u8) -> usize { x as *const u8 as usize }
+    pub fn addr_method(x: &[u8]) -> usize { x.as_ptr().addr() }
+    pub fn addr_fmt(x: &u8) -> String { format!("{:p}", x) }
 }
 
 pub mod leaks {
